@@ -84,7 +84,7 @@ func init() {
 		reflect.Array:         getArrayDecoder,
 		reflect.Chan:          invalidDecoder,
 		reflect.Func:          invalidDecoder,
-		reflect.Interface:     func(t reflect.Type) ValueDecoder { return interfaceDecoder{} },
+		reflect.Interface:     getInterfaceDecoder,
 		reflect.Map:           getMapDecoder,
 		reflect.Ptr:           getPtrDecoder,
 		reflect.Slice:         getSliceDecoder,
